@@ -248,16 +248,16 @@ void adapt_range()
 #define M_ITER(n, T) H(h_int_range_iterate_##n, int_range_iterate<T>())
 #define M_COUNT(n, T) H(h_int_range_count_##n, int_range_count<T>())
 INT_ALL(M_STEP) INT_ALL(M_ITER) INT_ALL(M_COUNT)
-//@harness h_int_range_step_{T} for T in i8,u8,i16,u16,i32,u32,i64,u64,strong tier=quick
-//@harness h_int_range_iterate_{T} for T in i8,u8,i16,u16,i32,u32,i64,u64,strong tier=quick loop=12
-//@harness h_int_range_count_{T} for T in i8,u8,i16,u16,i32,u32,i64,u64,strong tier=quick loop=12
+//@harness h_int_range_step_{T} for T in i8,u8,i16,u16,i32,u32,i64,u64,strong tier=quick hang_s=60
+//@harness h_int_range_iterate_{T} for T in i8,u8,i16,u16,i32,u32,i64,u64,strong tier=quick loop=12 hang_s=60
+//@harness h_int_range_count_{T} for T in i8,u8,i16,u16,i32,u32,i64,u64,strong tier=quick loop=12 hang_s=60
 
 #define EN_ROW(UN, U) H(h_enum_##UN##_1, enum_range<U, 1>()) H(h_enum_##UN##_2, enum_range<U, 2>()) H(h_enum_##UN##_3, enum_range<U, 3>()) H(h_enum_##UN##_4, enum_range<U, 4>()) \
   H(h_enum_##UN##_5, enum_range<U, 5>()) H(h_enum_##UN##_6, enum_range<U, 6>()) H(h_enum_##UN##_7, enum_range<U, 7>()) H(h_enum_##UN##_8, enum_range<U, 8>()) H(h_enum_##UN##_9, enum_range<U, 9>())
 EN_ROW(u8, std::uint8_t) EN_ROW(int, int) EN_ROW(u32, std::uint32_t)
-//@harness h_enum_{U}_{K} for U in u8,int,u32 for K in 1,2,3,4,5,6,7,8,9 tier=quick loop=16
+//@harness h_enum_{U}_{K} for U in u8,int,u32 for K in 1,2,3,4,5,6,7,8,9 tier=quick loop=16 hang_s=60
 
 H(h_iterator_range, iterator_range())
-//@harness h_iterator_range tier=quick loop=12
+//@harness h_iterator_range tier=quick loop=12 hang_s=60
 H(h_adapt_range, adapt_range())
-//@harness h_adapt_range param len=0..5 tier=quick loop=12
+//@harness h_adapt_range param len=0..5 tier=quick loop=12 hang_s=60
